@@ -32,7 +32,8 @@ func genUni(t *rapid.T, label string) string {
 	return rapid.StringOfN(rapid.SampledFrom(uniRunes), 0, 10, -1).Draw(t, label)
 }
 
-var boundPool = []float64{0, 1, 2, 3, 4, 5, -1, -5, 0.5, 1.5, 2.5, 2.4, 2.6, -0.5, -42, math.NaN(), math.Inf(1), math.Inf(-1), 1e10, -1e10, 9.3e18, 1.4999999999999998}
+var boundPool = []float64{0, 1, 2, 3, 4, 5, -1, -5, 0.5, 1.5, 2.5, 2.4, 2.6, -0.5, -42, math.NaN(), math.Inf(1), math.Inf(-1), 1e10, -1e10, 9.3e18, 1.4999999999999998,
+	0.49999999999999994, -0.49999999999999994, 4503599627370497, 4503599627370495.5, 2.5000000000000004, 0.5000000000000001}
 
 func genBound(t *rapid.T, label string) float64 {
 	if rapid.IntRange(0, 4).Draw(t, label+"Pool") != 0 {
@@ -118,6 +119,17 @@ func TestC07(t *testing.T) {
 			if rapid.Bool().Draw(t, "inPredicate") {
 				e = xast.Bin("=", xast.Call(strings.TrimSuffix(fn, "0")), xast.Call(strings.TrimSuffix(fn, "0"), xast.Path(false, xast.S("self", xast.NodeT()))))
 				c.Ctx = "/0"
+			}
+			if rapid.Bool().Draw(t, "otherNodeKind") {
+				// the omitted argument is the context node, whatever its kind
+				c.Events = []xmodel.Event{{K: "S", Local: "r"}, {K: "N", Local: "p", Value: "urn:" + s}, {K: "A", Local: "k", Value: s}, {K: "T", Value: s}, {K: "C", Value: s}, {K: "P", Local: "t", Value: s}, {K: "E"}}
+				c.Ctx = []string{"/0", "/0/@0", "/0/0", "/0/1", "/0/2", "/0/ns:p", "/"}[rapid.IntRange(0, 6).Draw(t, "ctxKind")]
+				if s == "" {
+					c.Ctx = "/0/@0" // no text/comment child without a value in some builders: keep to the attribute
+				}
+				e = xast.Call(strings.TrimSuffix(fn, "0"))
+				nt = true
+				st.Class("omitted-argument ctx=" + c.Ctx)
 			}
 		default:
 			e = xast.Call(fn, S, U)
